@@ -32,6 +32,7 @@ structure OrdLog where
   pos : Nat := 0
   useLog : Bool := true
   bad : Option String := none
+  rootSorts : Nat := 0
 
 def nonIncreasing : List Pos → Bool
   | a :: b :: rest => a.oh ≥ b.oh && nonIncreasing (b :: rest)
@@ -51,8 +52,11 @@ def pickAll : List String → List Pos → Option (List Pos)
     | some p => (pickAll ids (eraseFirstId id l)).map (p :: ·)
 
 /-- oracle that replays the order log written by the engine (hook H4) and validates it -/
-def logOracle : Oracle Pos OrdLog := fun o site l =>
-  if !o.useLog || o.bad.isSome then (sortDesc l, o)
+def logOracle : Oracle Pos OrdLog := fun o expired site l =>
+  let o := if site = 'R' then { o with rootSorts := o.rootSorts + 1 } else o
+  -- after the clock has expired the engine can only sort the root list once more (start of the
+  -- next iteration, immediately followed by the exit); that sort is not in the shared log
+  if !o.useLog || o.bad.isSome || expired then (sortDesc l, o)
   else
     match o.log[o.pos]? with
     | none => (sortDesc l, { o with bad := some s!"order log exhausted at entry {o.pos}" })
